@@ -15,21 +15,21 @@
 (* accepts exactly Matches(re, inp); the scanner emits exactly the            *)
 (* denotational longest-match tokenisation; Parse(Show(re)) = re.             *)
 EXTENDS Regex, TLC
-CONSTANTS MaxSize, MaxLen
+CONSTANTS MaxSize, MaxLen, ParseSize
 
 cA == 97
 cB == 98
 cOther == 99                      \* stands for every character other than a, b
 InChars == {cA, cB}               \* alphabet of the input strings
 DChars == <<cA, cB, cOther>>      \* one representative per derivative class
-Leaves == {Sym(cA), Sym(cB), Any}
+Leaves == {Sym(cA), Sym(cB), AnyChar}
 
-RECURSIVE AstsOf(_)
-AstsOf(n) ==
-    IF n = 1 THEN Leaves
-    ELSE {Star(x) : x \in AstsOf(n - 1)} \cup {Plus(x) : x \in AstsOf(n - 1)} \cup {Opt(x) : x \in AstsOf(n - 1)}
-         \cup UNION {UNION {{Cat(x, y), Alt(x, y)} : x \in AstsOf(k), y \in AstsOf(n - 1 - k)} : k \in 1..(n - 2)}
-Asts == UNION {AstsOf(n) : n \in 1..MaxSize}
+RECURSIVE AstsOver(_, _)
+AstsOver(L, n) ==                 \* the ASTs with exactly n nodes over the leaves L
+    IF n = 1 THEN L
+    ELSE {Star(x) : x \in AstsOver(L, n - 1)} \cup {Plus(x) : x \in AstsOver(L, n - 1)} \cup {Opt(x) : x \in AstsOver(L, n - 1)}
+         \cup UNION {UNION {{Cat(x, y), Alt(x, y)} : x \in AstsOver(L, k), y \in AstsOver(L, n - 1 - k)} : k \in 1..(n - 2)}
+Asts == UNION {AstsOver(Leaves, n) : n \in 1..MaxSize}
 Inputs == Strs(InChars, MaxLen)
 
 VARIABLES re,        \* the expression
@@ -147,6 +147,16 @@ LawDeriv == phase = "sealed" =>
                  Matches(Deriv(states[i], DChars[k]), s) = Matches(states[i], <<DChars[k]>> \o s)
 LawAccepts == phase = "sealed" => \A s \in Inputs : Accepts(re, s) = Matches(re, s)
 LawParse == phase = "sealed" => LET t == Show(re, 0) IN ParseRegex(t) = Ok(re, Len(t) + 1)
+\* the same law for larger trees (precedence of | against concatenation needs 5 nodes) and for
+\* leaves that need an escape or are classes: the parser reads back exactly the tree that was printed
+ParseLeaves == {Sym(cA), Sym(cB), AnyChar, Sym(cStar), Sym(cDash), Cls({cA, cB, cStar})}
+ASSUME \A n \in 1..ParseSize : \A r \in AstsOver(ParseLeaves, n) :
+          LET t == Show(r, 0) IN ParseRegex(t) = Ok(r, Len(t) + 1)
+\* texts outside the supported syntax are recognised as such (no demand), not mis-read
+ASSUME \A t \in {<<cA, cStar, cStar>>, <<cLBr, cCaret, cA, cRBr>>, <<cLPar, cA>>, <<cA, cRPar>>, <<cA, cBar>>,
+                 <<cBar, cA>>, <<cLPar, cRPar>>, <<cBsl, 100>>, <<cA, cBsl>>, <<cLBr, cRBr>>, <<cLBr, cA, cDash, cRBr>>,
+                 <<cLBr, cB, cDash, cA, cRBr>>, <<cStar>>, <<cA, cLBrace, 50, cRBrace>>, <<cCaret, cA>>, <<cA, cDollar>>} :
+          ~ParseRegex(t).ok
 \* walk
 WalkInv == phase = "walk" =>
              /\ states[cur] = DerivW(re, Seg(inp, 1, pos))
